@@ -53,6 +53,19 @@ func main() {
 				fmt.Printf("      %-28s min=%d  %s\n", r.Name, r.Min, r.Doc)
 			}
 		}
+	case "describe":
+		out := map[string]interface{}{}
+		for id, pr := range properties {
+			var rules []map[string]interface{}
+			for _, r := range pr.Rules {
+				rules = append(rules, map[string]interface{}{"name": r.Name, "min": r.Min, "doc": r.Doc})
+			}
+			out[id] = map[string]interface{}{"title": pr.Title, "explanation": pr.Explanation, "assumptions": pr.Assumptions, "rules": rules}
+		}
+		b, _ := json.MarshalIndent(out, "", " ")
+		fmt.Println(string(b))
+	case "writers":
+		os.Exit(cmdWriters(os.Args[2:]))
 	case "paths":
 		os.Exit(cmdPaths(os.Args[2:]))
 	case "explain":
